@@ -36,6 +36,7 @@ Next == /\ cfg.kind = "root"
               /\ ~(r > 1 /\ (p # "given" \/ sp # "rel"))        \* repetition: the plain configuration only
               /\ ~(pr # "fresh" /\ (p # "given" \/ sp # "rel" \/ w # "setdir" \/ r > 1 \/ k = "scalar"))   \* stale output: the plain configuration only
               /\ ~(s = 4 /\ (sp # "rel" \/ w # "setdir" \/ pr # "fresh" \/ r > 1))   \* set 4 (an input that is a symbolic link to another input): orders, goroutines, kernels
+              /\ ~(s = 5 /\ (f = "par" \/ p # "given" \/ pr # "fresh" \/ r > 1 \/ k = "scalar"))   \* set 5 (PAR2; the first input is listed a second time at the end): every spelling and directory
               /\ cfg' = [kind |-> "cfg", prior |-> pr, format |-> f, set |-> s, perm |-> p, g |-> g, cwd |-> w, spell |-> sp, via |-> v, kernel |-> k, rep |-> r]
 
 \* the relevant part of a configuration
